@@ -30,6 +30,7 @@ ASSUMPTIONS = [
     "the same construction with equal keys must be accepted (checked for every splice, so a reject is not vacuous)",
 ]
 TIMEOUT = {"quick": 900, "thorough": 8 * 3600}
+OPTIMIZED_SHARDS = ("splice00",)  # these shards also run under python -O
 NSH = 16
 
 
